@@ -129,8 +129,12 @@ func (cs *Contracts) parseFile(e *Engine, file, src string, pkg *types.Package) 
 			key := rest
 			// qualify with the package name
 			key = qualifyKey(key, pkg.Name())
-			cur = &Contract{key: key, pkg: pkg, loopInv: map[int][]*specExpr{}, loopDec: map[int]string{}, file: file}
-			cs.byKey[key] = cur
+			if existing := cs.byKey[key]; existing != nil {
+				cur = existing // several blocks for one function are merged
+			} else {
+				cur = &Contract{key: key, pkg: pkg, loopInv: map[int][]*specExpr{}, loopDec: map[int]string{}, file: file}
+				cs.byKey[key] = cur
+			}
 		case "methods":
 			key := qualifyKey(rest+".", pkg.Name())
 			key = strings.TrimSuffix(key, ".")
@@ -761,6 +765,7 @@ func (e *Engine) loadIn(env *specEnv, pl Place, t types.Type) Value {
 		v[i] = env.s.selectIn(env.heap, pl.Prefix+sl.Suffix, sl.Sort, pl.Addr)
 	}
 	if len(env.bound) == 0 && !env.quant {
+		e.typingAssume(env.s, t, v)
 		e.allocatedAssume(env.s, t, v)
 	}
 	return v
